@@ -13,7 +13,6 @@ import (
 
 type (
 	Once   = sync.Once
-	Pool   = sync.Pool
 	Locker = sync.Locker
 )
 
